@@ -3,6 +3,8 @@ import importlib
 
 # property -> (engine module, {tier: (runs, soft wall budget seconds)})
 TABLE = {
+    "C12": ("dispsim", dict(quick=(8000, 40), thorough=(400000, 480))),
+    "C13": ("dispsim", dict(quick=(8000, 40), thorough=(400000, 480))),
     "C20": ("tbsim", dict(quick=(6000, 40), thorough=(200000, 480))),
 }
 
